@@ -247,6 +247,39 @@ func countBlocks(bs []*ref.Block, counts map[string]int) {
 	}
 }
 
+// ---- code block contents (exploration iv) ---------------------------------------------
+
+// codeLineMenu: content lines that matter to fence selection and to verbatim
+// copying: fence-like lines of both characters, shorter and longer than the
+// default fence, with trailing spaces (still a closing fence), with leading
+// indentation (0-3 columns still close a fence, 4 do not), with an info-like
+// tail (cannot close), container markers, tabs, blank lines.
+var codeLineMenu = []string{"a", "", "```", "``` ", "````", "~~~", "~~~  ", " ```", "   ~~~~", "    ```", "```a", "> a", "- b", "\ta", "  b  ", "<b>&amp;*c*"}
+
+func codeContentLeaf(x *X, maxLines int) *ref.Block {
+	b := &ref.Block{Kind: ref.BFenced}
+	switch x.ChooseFree(3) {
+	case 1:
+		b.Info = "go"
+	case 2:
+		b.Kind = ref.BIndented
+	}
+	for i := 0; i < maxLines; i++ {
+		k := x.ChooseFree(len(codeLineMenu) + 1)
+		if k == 0 {
+			break
+		}
+		b.Lines = append(b.Lines, codeLineMenu[k-1])
+	}
+	if b.Kind == ref.BIndented {
+		// An indented code block begins and ends with a non-blank line.
+		if len(b.Lines) == 0 || strings.TrimSpace(b.Lines[0]) == "" || strings.TrimSpace(b.Lines[len(b.Lines)-1]) == "" {
+			return nil
+		}
+	}
+	return b
+}
+
 // ---- the comparison ---------------------------------------------------------------
 
 func c06Compare(x *X, doc []*ref.Block, label string) {
@@ -361,6 +394,20 @@ func init() {
 				}
 				c06Compare(x, wrapContext(ctx, leaf), c06Contexts[ctx])
 			})
+			nl := c.Pick(3, 4)
+			c.Explore("code-content", fmt.Sprintf("fenced (with/without info string) and indented code blocks with every sequence of <=%d content lines from a %d-line menu of fence-like, indented, blank and marker-like lines, in each context, x spelling deviations <=%d (fence character, fence length, longer closing fence)", nl, len(codeLineMenu), dev), dev, nl, func(x *X) {
+				leaf := codeContentLeaf(x, nl)
+				if leaf == nil {
+					return
+				}
+				ctx := x.ChooseFree(len(c06Contexts))
+				doc := wrapContext(ctx, leaf)
+				if r := validSkeleton(doc); r != "" {
+					x.Count("skeleton_invalid: " + r)
+					return
+				}
+				c06Compare(x, doc, c06Contexts[ctx])
+			})
 		},
 	})
 	c20Second = c20SecondImpl
@@ -468,6 +515,19 @@ func c20SecondImpl(c *Ctx) {
 		}
 		ctx := x.ChooseFree(len(c06Contexts))
 		doc := append(wrapContext(ctx, &ref.Block{Kind: ref.BPara, Inl: seq}), refDefs()...)
+		c20Roundtrip(x, doc, c06Contexts[ctx])
+	})
+	nl := c.Pick(3, 4)
+	c.Explore("canonical-code-content", fmt.Sprintf("fenced and indented code blocks with every sequence of <=%d content lines from the %d-line menu (fence-like lines with trailing spaces and indentation, blank lines, markers), at top level, in a quote, as second block of a loose item and after a paragraph: the formatter has to choose a fence that the content cannot close", nl, len(codeLineMenu)), 0, nl, func(x *X) {
+		leaf := codeContentLeaf(x, nl)
+		if leaf == nil {
+			return
+		}
+		ctx := x.ChooseFree(len(c06Contexts))
+		doc := wrapContext(ctx, leaf)
+		if r := validSkeleton(doc); r != "" {
+			return
+		}
 		c20Roundtrip(x, doc, c06Contexts[ctx])
 	})
 }
